@@ -174,7 +174,7 @@ def close(a, b, tol):
     return a.shape == b.shape and bool(np.all(np.abs(a - b) <= tol))
 
 
-def same_system(am, s0, s1, tol, check_pbc=True, check_symbols=True, props=None, by_lattice=False):
+def same_system(am, s0, s1, tol, check_pbc=True, check_symbols=True, props=None, by_lattice=False, prop_unit=None, float_format=None):
     """field-by-field comparison; returns list of messages"""
     msgs = []
     if s0.natoms != s1.natoms:
@@ -206,6 +206,7 @@ def same_system(am, s0, s1, tol, check_pbc=True, check_symbols=True, props=None,
         a, b2 = s0.atoms.view[k], s1.atoms.view[k]
         if a.shape != b2.shape:
             msgs.append('property %r shape %r != %r' % (k, b2.shape, a.shape))
-        elif not close(b2, a, tol * 20 * max(1.0, np.abs(a).max())):
+        elif not close(b2, a, max(tol * 20 * max(1.0, np.abs(a).max()),
+                                  (4 * ftol(float_format, np.asarray(a, dtype=float) / prop_unit[k]) * prop_unit[k]) if (prop_unit and k in prop_unit and float_format) else 0.0)):
             msgs.append('property %r differs (max %g)' % (k, np.abs(np.asarray(b2, dtype=float) - np.asarray(a, dtype=float)).max()))
     return msgs
